@@ -198,7 +198,7 @@ def run_fold(spec, comp):
     src = concretise_str(spec["s"], rng)
     ev = dict(op="fold", s=list(spec["s"]), indent=spec["indent"],
               maxline=spec["maxline"], lp=spec["lp"], endsp=spec["endsp"],
-              avoid=bool(spec["avoid"]), srctok=hextok("str", src))
+              avoid=bool(spec["avoid"]), srctok=hextok("str", src), sess="")
     lit = {"has": True, "kind": "string", "clause": True, "q": "Q",
            "elems": lit_elems([spec["s"]]),
            "out": ["U"], "flat": ["U"], "gotok": False, "got": []}
@@ -435,6 +435,28 @@ def _case(name, rng):
 
 
 _TRI = {"N": None, "T": True, "F": False}
+
+
+def spell(name, sp, rng):
+    """a scope name as key of the scopes NocaseDict in the spelling class of
+    spec/MofTextDecl.tla: U all upper, l all lower, M mixed case"""
+    if sp == "U":
+        return name.upper()
+    if sp == "l":
+        return name.lower()
+    while True:
+        m = "".join(rng.choice((c.upper(), c.lower())) for c in name)
+        if m != m.upper() and m != m.lower():
+            return m
+
+
+def scope_dict(d, rng):
+    """scopes of a qualifier declaration spec: `sd` = [[name, sp, flag]]
+    (MofTextDecl!ScopeUniverse: keys as spelled, entries that are False)
+    or, without it, the upper-case names of `scopes`, all True"""
+    if "sd" in d:
+        return {spell(n, sp, rng): bool(flag) for n, sp, flag in d["sd"]}
+    return {s: True for s in d["scopes"]}
 
 # class properties declared with the initializer NULL come from the real
 # compiler (`<type> P = NULL;`), one compile per (type, shape)
@@ -679,7 +701,7 @@ class Build:
             _case(d["name"], self.rng), d["type"],
             value=self.value(d["val"], d["type"]), is_array=d["arr"],
             array_size=None if d["asize"] < 0 else d["asize"],
-            scopes={s: True for s in d["scopes"]},
+            scopes=scope_dict(d, self.rng),
             overridable=_TRI[f["ovr"]], tosubclass=_TRI[f["tosub"]],
             translatable=_TRI[f["transl"]], toinstance=_TRI[f["toinst"]])
 
@@ -778,7 +800,8 @@ def val_tokens(value, typ):
 
 
 def elem(path, et, typ="", arr=None, asize=None, ref=None, emb=None,
-         sup=None, value=None, hasval=False, flv=None, dflv=None, scopes=()):
+         sup=None, value=None, hasval=False, flv=None, dflv=None, scopes=(),
+         qn=""):
     isnull, toks = val_tokens(value, typ) if hasval else (True, [])
     if hasval and isinstance(value, list) and not arr:
         arrs = "a?"              # list value on a non-array element
@@ -791,7 +814,7 @@ def elem(path, et, typ="", arr=None, asize=None, ref=None, emb=None,
             "emb": emb or "", "super": _lc(sup), "isnull": isnull,
             "val": toks, "ovr": f[0], "tosub": f[1], "transl": f[2],
             "toinst": f[3], "dovr": d[0], "dtosub": d[1], "dtransl": d[2],
-            "dtoinst": d[3], "scopes": sorted(scopes),
+            "dtoinst": d[3], "scopes": sorted(scopes), "qn": qn,
             "cd": {"kind": "", "isnull": True, "val": []}}
 
 
@@ -805,7 +828,7 @@ def qual_elems(base, quals, declflv):
                         hasval=True,
                         flv=(_tri(q.overridable), _tri(q.tosubclass),
                              _tri(q.translatable), _tri(q.toinstance)),
-                        dflv=dflv))
+                        dflv=dflv, qn=q.name.lower()))
     return out
 
 
@@ -844,7 +867,7 @@ def elems_of(obj, declflv):
                         flv=(_tri(obj.overridable), _tri(obj.tosubclass),
                              _tri(obj.translatable), _tri(obj.toinstance)),
                         scopes=[k.upper() for k, v in obj.scopes.items()
-                                if v]))
+                                if v], qn=obj.name.lower()))
     else:
         out.append(elem("UNCLASSIFIED:%r" % (type(obj),), "other"))
     return out
@@ -958,14 +981,17 @@ def _find_compiled(conn, ns, orig):
     return insts[0]
 
 
-def run_obj(spec, comp):
-    """-> (event, info).  info holds the concrete artefacts for reports."""
+def run_obj(spec, comp, sess=None, step=""):
+    """-> (event, info).  info holds the concrete artefacts for reports.
+    With `sess` (a Session) the text is compiled as the next step of that
+    session: same compiler, same namespace, nothing primed behind it."""
     b = Build(spec)
     orig = b.build()
     declflv = b.declflv
     ev = {"op": "obj", "kind": spec["k"], "maxline": spec["maxline"],
           "orig": elems_of(orig, declflv), "comp": [], "accepted": False,
-          "generated": True, "lit": dict(NO_LIT), "declared": []}
+          "generated": True, "lit": dict(NO_LIT), "declared": [],
+          "sess": step}
     if isinstance(orig, CIMInstance):
         # what the primed class declares as default for each property
         base = "inst:%s" % orig.classname.lower()
@@ -1000,7 +1026,11 @@ def run_obj(spec, comp):
                                          for x in lit[1]]),
                      "out": _region(text, q, lit[2]), "flat": flat,
                      "gotok": False, "got": []}
-    ok, ns, conn, err = comp.compile(text, list(b.qdecls.values()), b.classes)
+    if sess is not None:
+        ok, ns, conn, err = sess.compile(text)
+    else:
+        ok, ns, conn, err = comp.compile(text, list(b.qdecls.values()),
+                                         b.classes)
     ev["accepted"] = ok
     if not ok:
         info["error"] = err
@@ -1013,6 +1043,57 @@ def run_obj(spec, comp):
         if len(cv) == 1:
             ev["lit"]["gotok"], ev["lit"]["got"] = got_elems(cv[0][1])
     return ev, info
+
+
+# ----------------------------------------------------------------------------
+# compiler sessions (spec/MofTextDecl.tla Part B)
+# ----------------------------------------------------------------------------
+
+class Session:
+    """ONE MOFCompiler on ONE MOFWBEMConnection and ONE namespace for a whole
+    history of steps"""
+    _n = 0
+
+    def __init__(self):
+        Session._n += 1
+        self.ns = "root/sess%d" % Session._n
+        self.conn = MOFWBEMConnection()
+        self.mc = MOFCompiler(self.conn, verbose=False, log_func=None)
+        self.dead = False
+
+    def prime(self, qdecl):
+        self.conn.SetQualifier(qdecl.copy(), namespace=self.ns)
+
+    def compile(self, text):
+        try:
+            self.mc.compile_string(text, self.ns)
+        except Exception as exc:  # noqa: any rejection counts
+            self.dead = True
+            return False, self.ns, self.conn, "%s: %s" % (
+                type(exc).__name__, str(exc)[:300])
+        return True, self.ns, self.conn, ""
+
+
+def run_session(steps):
+    """steps = [{"step": "prime" | "declare" | "use", "spec": object spec}]
+    -> ([events], [infos]); the history stops after a rejected step (the
+    requirement machine's verdict ends there as well)"""
+    sess = Session()
+    events, infos = [], []
+    for st in steps:
+        if st["step"] == "prime":
+            qd = Build(st["spec"]).build()
+            sess.prime(qd)
+            events.append({"op": "prime", "sess": "prime",
+                           "orig": elems_of(qd, {})})
+            infos.append({"orig": repr(qd)[:600], "text": None})
+            continue
+        ev, info = run_obj(st["spec"], None, sess, st["step"])
+        events.append(ev)
+        infos.append(info)
+        if sess.dead or not ev["generated"]:
+            break
+    return events, infos
 
 
 # ----------------------------------------------------------------------------
